@@ -266,15 +266,19 @@ SameCall(a, b) ==
     /\ (a.op = "parse" => a.in = b.in)
     /\ (a.op = "write" => a.val = b.val)
 
-Pairs(o) == { p \in (1..Len(o)) \X (1..Len(o)) : p[1] # p[2] }
+(* Each relation is written from the point of view of one event b = o[i] (the partial call, the  *)
+(* facade call, the parse-back, the lossy call, the call in the other configuration) against     *)
+(* every other event a = o[j] of the episode, so that a mismatch is reported on that event.      *)
+Others(o, i) == { j \in 1..Len(o) : j # i }
 
 (* C11 *)
-PartialAgrees(o) ==
-    \A p \in Pairs(o) :
-        LET a == o[p[1]]  b == o[p[2]] IN
-        (a.op = "parse" /\ b.op = "parse" /\ ~a.partial /\ b.partial /\ a.cfg = b.cfg /\ a.api = b.api
-           /\ a.ty = b.ty /\ a.fmt = b.fmt /\ a.wo = b.wo /\ a.opts = b.opts
-           /\ ~Abnormal(a.res) /\ ~Abnormal(b.res))
+PartialAgreesAt(o, i) ==
+    LET b == o[i] IN
+    (b.op = "parse" /\ b.partial /\ ~Abnormal(b.res)) =>
+    \A j \in Others(o, i) :
+        LET a == o[j] IN
+        (a.op = "parse" /\ ~a.partial /\ a.cfg = b.cfg /\ a.api = b.api
+           /\ a.ty = b.ty /\ a.fmt = b.fmt /\ a.wo = b.wo /\ a.opts = b.opts /\ ~Abnormal(a.res))
         => /\ (a.in = b.in =>
                  /\ (a.res.k = "ok" => b.res.k = "ok" /\ b.res.n = b.len /\ SameVal(a.res.v, b.res.v))
                  /\ (b.res.k = "ok" /\ b.res.n = b.len => a.res.k = "ok"))
@@ -282,52 +286,57 @@ PartialAgrees(o) ==
                  => a.res.k = "ok" /\ SameVal(a.res.v, b.res.v))
 
 (* C16: same call, different build configuration *)
-Additive(o) ==
-    \A p \in Pairs(o) :
-        LET a == o[p[1]]  b == o[p[2]] IN
-        (a.cfg # b.cfg /\ a.api = b.api /\ SameCall(a, b) /\ a.fmt = 0 /\ (a.op = "parse" => a.partial = b.partial))
+AdditiveAt(o, i) ==
+    LET b == o[i] IN
+    \A j \in Others(o, i) :
+        LET a == o[j] IN
+        (j < i /\ a.cfg # b.cfg /\ a.api = b.api /\ SameCall(a, b) /\ a.fmt = 0 /\ (a.op = "parse" => a.partial = b.partial))
         => IF a.op = "write" /\ IsFloatTy(a.ty) /\ (a.feat.compact \/ b.feat.compact)
            THEN a.res.k = b.res.k
            ELSE SameRes(a.res, b.res)
 
 (* C17: same call through lexical and lexical-core *)
-FacadeEqualsCore(o) ==
-    \A p \in Pairs(o) :
-        LET a == o[p[1]]  b == o[p[2]] IN
-        (a.cfg = b.cfg /\ a.api = "core" /\ b.api = "facade" /\ SameCall(a, b)
+FacadeEqualsCoreAt(o, i) ==
+    LET b == o[i] IN
+    (b.op \in {"parse", "write"} /\ b.api = "facade") =>
+    \A j \in Others(o, i) :
+        LET a == o[j] IN
+        (a.cfg = b.cfg /\ a.api = "core" /\ SameCall(a, b)
            /\ (a.op = "parse" => a.partial = b.partial)
            /\ (a.op = "write" => a.buflen >= Need(a)))
         => SameRes(a.res, b.res)
 
 (* C08 (and the compact clause of C16): what was written parses back to the same value *)
-RoundTrip(o) ==
-    \A p \in Pairs(o) :
-        LET w == o[p[1]]  q == o[p[2]] IN
-        (w.op = "write" /\ q.op = "parse" /\ w.res.k = "ok" /\ ~q.partial /\ "back" \in DOMAIN q
-           /\ q.ty = w.ty /\ q.fmt = w.fmt /\ q.in = w.res.out /\ q.back = w.id)
+RoundTripAt(o, i) ==
+    LET q == o[i] IN
+    (q.op = "parse" /\ "back" \in DOMAIN q /\ ~q.partial) =>
+    \A j \in Others(o, i) :
+        LET w == o[j] IN
+        (w.op = "write" /\ w.res.k = "ok" /\ q.ty = w.ty /\ q.in = w.res.out /\ q.back = w.id)
         => /\ q.res.k = "ok"
            /\ (q.exact => SameVal(q.res.v, w.v))
 
 (* C19: lossy changes nothing but the value *)
-LossyAgrees(o) ==
-    \A p \in Pairs(o) :
-        LET a == o[p[1]]  b == o[p[2]] IN
-        (a.op = "parse" /\ b.op = "parse" /\ IsFloatTy(a.ty) /\ a.ty = b.ty /\ a.fmt = b.fmt /\ a.cfg = b.cfg
-           /\ a.api = b.api /\ a.partial = b.partial /\ a.in = b.in /\ a.wo /\ b.wo
-           /\ ~a.opts.lossy /\ b.opts.lossy /\ [a.opts EXCEPT !.lossy = TRUE] = b.opts
-           /\ ~Abnormal(a.res) /\ ~Abnormal(b.res))
+LossyAgreesAt(o, i) ==
+    LET b == o[i] IN
+    (b.op = "parse" /\ IsFloatTy(b.ty) /\ b.wo /\ b.opts.lossy /\ ~Abnormal(b.res)) =>
+    \A j \in Others(o, i) :
+        LET a == o[j] IN
+        (a.op = "parse" /\ a.ty = b.ty /\ a.fmt = b.fmt /\ a.cfg = b.cfg
+           /\ a.api = b.api /\ a.partial = b.partial /\ a.in = b.in /\ a.wo
+           /\ ~a.opts.lossy /\ [a.opts EXCEPT !.lossy = TRUE] = b.opts /\ ~Abnormal(a.res))
         => /\ a.res.k = b.res.k
            /\ (a.res.k = "ok" => a.res.n = b.res.n)
            /\ (a.res.k = "err" => a.res.code = b.res.code /\ a.res.idx = b.res.idx)
            /\ (a.res.k = "ok" /\ a.res.v.cls \in {"zero", "inf", "nan"} => SameVal(a.res.v, b.res.v))
            /\ (a.res.k = "ok" /\ "fastpath" \in DOMAIN b /\ b.fastpath => SameVal(a.res.v, b.res.v))
 
-EpisodeChecks(o) ==
-       V(PartialAgrees(o),    "C11", "partial and complete parsers disagree")
-    \o V(Additive(o),         "C16", "results differ between build configurations")
-    \o V(FacadeEqualsCore(o), "C17", "lexical and lexical-core disagree")
-    \o V(RoundTrip(o),        "C08", "written bytes do not parse back to the same value")
-    \o V(LossyAgrees(o),      "C19", "lossy parsing changed more than the precision")
+RelationsAt(o, i) ==
+       V(PartialAgreesAt(o, i),      "C11", "partial and complete parsers disagree")
+    \o V(AdditiveAt(o, i),           "C16", "results differ between build configurations")
+    \o V(FacadeEqualsCoreAt(o, i),   "C17", "lexical and lexical-core disagree")
+    \o V(RoundTripAt(o, i),          "C08", "written bytes do not parse back to the same value")
+    \o V(LossyAgreesAt(o, i),        "C19", "lossy parsing changed more than the precision")
 
 (***************************************************************************)
 (* the walk                                                                *)
@@ -338,7 +347,12 @@ TagAll(line, seq, i) == IF i > Len(seq) THEN << >>
 
 Init == l = 1 /\ ep = -1 /\ obs = << >> /\ bad = << >>
 
-CloseEpisode(line) == IF ep = -1 THEN << >> ELSE TagAll(line, EpisodeChecks(obs), 1)
+(* `line` is the trace line of the last event of the episode held in obs *)
+RECURSIVE CloseFrom(_, _, _)
+CloseFrom(o, line, i) ==
+    IF i > Len(o) THEN << >>
+    ELSE TagAll(line - Len(o) + i, RelationsAt(o, i), 1) \o CloseFrom(o, line, i + 1)
+CloseEpisode(line) == IF ep = -1 \/ Len(obs) < 2 THEN << >> ELSE CloseFrom(obs, line, 1)
 
 (* one action per operation kind, so that -coverage shows what the trace exercised *)
 StepOf(kind) ==
